@@ -269,3 +269,191 @@ Proof.
   assert (E1 : r_src r1 = with_body f b) by (destruct b; inversion H1; reflexivity).
   rewrite E1. cbn. repeat split; reflexivity.
 Qed.
+
+(* ------------------------------------------------------------------ the boolean well-formedness test *)
+Lemma skipn_add {A} (l:list A) a b : skipn (a + b) l = skipn b (skipn a l).
+Proof. revert l. induction a as [|a IH]; intros l; [reflexivity|]. destruct l; cbn; [destruct b; reflexivity|apply IH]. Qed.
+
+Lemma firstn_split {A} (l:list A) k m : firstn k l ++ firstn m (skipn k l) = firstn (k + m) l.
+Proof.
+  revert l. induction k as [|k IH]; intros l; [reflexivity|].
+  destruct l; cbn; [destruct m; reflexivity|]. f_equal. apply IH.
+Qed.
+
+Lemma slice_split (v:list Z) a n L : 0 <= a -> a <= n -> n <= L ->
+  slice v a n ++ slice v n L = slice v a L.
+Proof.
+  intros Ha Hn HL. unfold slice.
+  replace (Z.to_nat n) with (Z.to_nat a + Z.to_nat (n - a))%nat by lia. rewrite skipn_add.
+  rewrite firstn_split. f_equal. lia.
+Qed.
+
+Lemma sortedb_last_ge a t : sortedb (a :: t) = true -> a <= last (a :: t) 0.
+Proof.
+  revert a. induction t as [|n t IH]; intros a H; [cbn; lia|].
+  cbn [sortedb] in H. apply andb_prop in H. destruct H as [H1 H2]. apply Z.leb_le in H1.
+  specialize (IH n H2). change (last (a :: n :: t) 0) with (last (n :: t) 0). lia.
+Qed.
+
+Lemma enc_cells_of : forall t a v,
+  sortedb (a :: t) = true -> 0 <= a -> last (a :: t) 0 <= len v ->
+  psums_from a (lens (cells_of (a :: t) v)) = a :: t /\
+  concat (cells_of (a :: t) v) = slice v a (last (a :: t) 0).
+Proof.
+  induction t as [|n t IH]; intros a v Hs Ha Hl.
+  - cbn [cells_of lens map psums_from concat last]. split; [reflexivity|].
+    unfold slice. rewrite Z.sub_diag. reflexivity.
+  - pose proof Hs as Hs0. cbn [sortedb] in Hs. apply andb_prop in Hs. destruct Hs as [H1 H2]. apply Z.leb_le in H1.
+    change (last (a :: n :: t) 0) with (last (n :: t) 0) in *.
+    pose proof (sortedb_last_ge n t H2) as Hge.
+    destruct (IH n v H2 ltac:(lia) Hl) as [IH1 IH2].
+    change (cells_of (a :: n :: t) v) with (slice v a n :: cells_of (n :: t) v).
+    cbn [lens map psums_from concat]. fold (lens (cells_of (n :: t) v)).
+    rewrite len_slice by lia. replace (a + (n - a)) with n by lia. rewrite IH1, IH2.
+    split; [reflexivity|]. apply slice_split; lia.
+Qed.
+
+Lemma wf_bodyb_sound b : wf_bodyb b = true -> wf_body b.
+Proof.
+  destruct b as [i v|d]; [|intros _; constructor].
+  destruct i as [|i0 t]; cbn [wf_bodyb].
+  - intros H. apply Z.eqb_eq in H. apply len_0_nil in H. subst v. constructor.
+  - intros H. apply andb_prop in H. destruct H as [H H3]. apply andb_prop in H. destruct H as [H1 H2].
+    apply Z.eqb_eq in H1. apply Z.eqb_eq in H3. subst i0.
+    destruct (enc_cells_of t 0 v H2 ltac:(lia) ltac:(lia)) as [E1 E2].
+    rewrite H3 in E2. rewrite slice_full in E2.
+    rewrite <- E1 at 1. rewrite <- E2 at 2. apply wf_idx.
+Qed.
+
+(* ------------------------------------------------------------------ the column loops *)
+Lemma has_name_app n d1 d2 : has_name n (d1 ++ d2) = has_name n d1 || has_name n d2.
+Proof.
+  induction d1 as [|[m f] t IH]; cbn [app has_name]; [reflexivity|]. rewrite IH. apply orb_assoc.
+Qed.
+
+Lemma disjoint_names_snoc cols ddf n f :
+  disjoint_names cols ddf = true -> has_name n cols = false ->
+  disjoint_names cols (ddf ++ [(n, f)]) = true.
+Proof.
+  induction cols as [|[m g] t IH]; cbn [disjoint_names has_name]; [reflexivity|].
+  intros H Hn. apply andb_prop in H. destruct H as [H1 H2]. apply orb_false_elim in Hn. destruct Hn as [Hn1 Hn2].
+  rewrite has_name_app. cbn [has_name]. rewrite orb_false_r.
+  apply negb_true_iff in H1. rewrite H1.
+  rewrite Z.eqb_sym in Hn1. rewrite Hn1. cbn. apply IH; assumption.
+Qed.
+
+Definition sel_col (ps:list Z) (wr:option bool) (nf:Z * field) : Z * field :=
+  (fst nf, mkField (fmeta (snd nf)) (match wr with Some w => w | None => fwr (snd nf) end)
+                   (select_body (fbody (snd nf)) ps)).
+
+Lemma cols_to_ddf_ok (op:field -> option field -> bool -> res fres) ps : forall cols ddf,
+  (forall nf t, In nf cols ->
+     op (snd nf) (Some t) false = deliver (snd nf) (select_body (fbody (snd nf)) ps) (Some t) false) ->
+  nodup_names cols = true -> disjoint_names cols ddf = true ->
+  cols_to_ddf op cols ddf = Ok (cols, ddf ++ map (sel_col ps (Some true)) cols).
+Proof.
+  induction cols as [|[name f] t IH]; intros ddf Hop Hnd Hdj; cbn [cols_to_ddf map].
+  - rewrite app_nil_r. reflexivity.
+  - cbn [nodup_names disjoint_names] in Hnd, Hdj.
+    apply andb_prop in Hnd. destruct Hnd as [Hn1 Hn2]. apply andb_prop in Hdj. destruct Hdj as [Hd1 Hd2].
+    apply negb_true_iff in Hn1. apply negb_true_iff in Hd1. rewrite Hd1.
+    pose proof (Hop (name, f) (create_like f) (or_introl eq_refl)) as H0. cbn [snd] in H0. rewrite H0.
+    rewrite deliver_target.
+    2:{ unfold create_like. cbn [fbody]. destruct (fbody f); exact I. }
+    cbn [bind r_tgt r_src].
+    rewrite IH.
+    + cbn [bind]. rewrite <- app_assoc. reflexivity.
+    + intros nf t' Hin. apply Hop. right. exact Hin.
+    + exact Hn2.
+    + apply disjoint_names_snoc; assumption.
+Qed.
+
+Lemma cols_in_place_ok (op:field -> option field -> bool -> res fres) ps : forall cols,
+  (forall nf, In nf cols ->
+     op (snd nf) None true = deliver (snd nf) (select_body (fbody (snd nf)) ps) None true) ->
+  forallb (fun nf:Z * field => fwr (snd nf)) cols = true ->
+  cols_in_place op cols = Ok (map (sel_col ps None) cols).
+Proof.
+  induction cols as [|[name f] t IH]; intros Hop Hw; cbn [cols_in_place map]; [reflexivity|].
+  cbn [forallb snd] in Hw. apply andb_prop in Hw. destruct Hw as [Hw1 Hw2].
+  pose proof (Hop (name, f) (or_introl eq_refl)) as H0. cbn [snd] in H0. rewrite H0.
+  rewrite deliver_in_place by exact Hw1.
+  cbn [bind r_src]. rewrite IH; [|intros nf Hin; apply Hop; right; exact Hin|exact Hw2].
+  cbn [bind]. reflexivity.
+Qed.
+
+Lemma spec_select_eq cols ps ddf :
+  spec_select cols ps ddf =
+  match ddf with
+  | Some d => (cols, Some (d ++ map (sel_col ps (Some true)) cols))
+  | None => (map (sel_col ps None) cols, None)
+  end.
+Proof. destruct ddf; reflexivity. Qed.
+
+Lemma frame_ok_in n cols nf : frame_ok n cols = true -> In nf cols ->
+  wf_body (fbody (snd nf)) /\ field_len (snd nf) = n.
+Proof.
+  unfold frame_ok. rewrite forallb_forall. intros H Hin. specialize (H nf Hin).
+  apply andb_prop in H. destruct H as [H1 H2]. split; [apply wf_bodyb_sound; exact H1|apply Z.eqb_eq; exact H2].
+Qed.
+
+(* ------------------------------------------------------------------ DataFrame.apply_filter *)
+Theorem df_filter_correct cols dt flt ddf r :
+  spec_filter cols dt flt ddf = Some r -> df_apply_filter cols dt flt ddf = Ok r.
+Proof.
+  unfold spec_filter. set (n := nrows cols).
+  destruct (frame_ok n cols) eqn:Hok; [|discriminate].
+  destruct (nodup_names cols) eqn:Hnd; [|discriminate].
+  destruct (dest_ok cols ddf) eqn:Hdst; [|discriminate].
+  destruct ((dt =? 0) || (dt =? 1)) eqn:Hdt; [|discriminate].
+  cbn [andb]. destruct ((len flt =? n) || match cols with [] => true | _ => false end) eqn:Hlen; [|discriminate].
+  intros H. inversion H; subst r; clear H.
+  unfold df_apply_filter. rewrite (validate_filter_ok _ _ Hdt). cbn [bind].
+  assert (Hop : forall nf t ip, In nf cols -> ip && is_some t = false ->
+            field_apply_filter (snd nf) 0 (bools_to_Z (truthy flt)) t ip
+            = deliver (snd nf) (select_body (fbody (snd nf)) (sel (truthy flt))) t ip).
+  { intros nf t ip Hin Hf. destruct (frame_ok_in n cols nf Hok Hin) as [Hwf Hfl].
+    rewrite field_filter_correct; [rewrite truthy_bools; reflexivity|exact Hwf|reflexivity| |exact Hf].
+    unfold bools_to_Z. unfold len at 1. rewrite map_length. fold (len (truthy flt)). rewrite len_truthy, Hfl.
+    destruct cols as [|c0 ct]; [destruct Hin|]. rewrite orb_false_r in Hlen. apply Z.eqb_eq. exact Hlen. }
+  rewrite spec_select_eq. destruct ddf as [d|]; cbn [dest_ok] in Hdst.
+  - rewrite (cols_to_ddf_ok _ (sel (truthy flt))); [reflexivity| |exact Hnd|exact Hdst].
+    intros nf t Hin. apply Hop; [exact Hin|reflexivity].
+  - rewrite (cols_in_place_ok _ (sel (truthy flt))); [reflexivity| |exact Hdst].
+    intros nf Hin. apply Hop; [exact Hin|reflexivity].
+Qed.
+
+(* ------------------------------------------------------------------ DataFrame.apply_index *)
+Lemma all_same_len_ok n : forall cols seen,
+  frame_ok n cols = true -> (seen = None \/ seen = Some n) -> all_same_len cols seen = true.
+Proof.
+  induction cols as [|[name f] t IH]; intros seen Hok Hs; cbn [all_same_len]; [reflexivity|].
+  unfold frame_ok in Hok. cbn [forallb snd] in Hok. apply andb_prop in Hok. destruct Hok as [H1 H2].
+  apply andb_prop in H1. destruct H1 as [_ H1]. apply Z.eqb_eq in H1.
+  destruct Hs as [->| ->].
+  - apply IH; [exact H2|right; rewrite H1; reflexivity].
+  - rewrite H1, Z.eqb_refl. cbn. apply IH; [exact H2|right; reflexivity].
+Qed.
+
+Theorem df_index_correct cols idx ddf r :
+  spec_index cols idx ddf = Some r -> df_apply_index cols idx ddf = Ok r.
+Proof.
+  unfold spec_index. set (n := nrows cols).
+  destruct (frame_ok n cols) eqn:Hok; [|discriminate].
+  destruct (nodup_names cols) eqn:Hnd; [|discriminate].
+  destruct (dest_ok cols ddf) eqn:Hdst; [|discriminate].
+  destruct (in_range n idx) eqn:Hr; [|discriminate].
+  cbn [andb]. intros H. inversion H; subst r; clear H.
+  unfold df_apply_index.
+  assert (Hop : forall nf t ip, In nf cols -> ip && is_some t = false ->
+            field_apply_index (snd nf) idx t ip
+            = deliver (snd nf) (select_body (fbody (snd nf)) idx) t ip).
+  { intros nf t ip Hin Hf. destruct (frame_ok_in n cols nf Hok Hin) as [Hwf Hfl].
+    apply field_index_correct; [exact Hwf|rewrite Hfl; exact Hr|exact Hf]. }
+  rewrite spec_select_eq. destruct ddf as [d|]; cbn [dest_ok] in Hdst.
+  - rewrite (cols_to_ddf_ok _ idx); [reflexivity| |exact Hnd|exact Hdst].
+    intros nf t Hin. apply Hop; [exact Hin|reflexivity].
+  - rewrite (all_same_len_ok n cols None Hok (or_introl eq_refl)). cbn [negb].
+    rewrite (cols_in_place_ok _ idx); [reflexivity| |exact Hdst].
+    intros nf Hin. apply Hop; [exact Hin|reflexivity].
+Qed.
